@@ -1429,25 +1429,30 @@ class FuncExecute(ValueFunc):
         if args.hasArg("output_file"):
             output_file = args.getString("output_file").value
 
-        if echo:
-            print(" ".join([program] + arglist))
+        try:
+            if echo:
+                print(" ".join([program] + arglist))
 
-        if output_file is not None:
-            # TODO directly pipe output to dest file
-            p = subprocess.run(
-                [program] + arglist,
-                cwd=(work_dir if work_dir else None),
-                capture_output=True,
-                encoding="utf-8",
+            if output_file is not None:
+                # TODO directly pipe output to dest file
+                p = subprocess.run(
+                    [program] + arglist,
+                    cwd=(work_dir if work_dir else None),
+                    capture_output=True,
+                    encoding="utf-8",
+                )
+                with open(output_file, "w", encoding="utf-8") as outfile:
+                    outfile.write(p.stdout)
+                return ValueInt(p.returncode)
+            else:
+                p = subprocess.run(
+                    [program] + arglist, cwd=(work_dir if work_dir else None)
+                )
+                return ValueInt(p.returncode)
+        except Exception:
+            raise CklRuntimeError(
+                ValueString("ERROR"), "Cannot execute " + program, pos
             )
-            with open(output_file, "w", encoding="utf-8") as outfile:
-                outfile.write(p.stdout)
-            return ValueInt(p.returncode)
-        else:
-            p = subprocess.run(
-                [program] + arglist, cwd=(work_dir if work_dir else None)
-            )
-            return ValueInt(p.returncode)
 
 
 class FuncExp(ValueFunc):
